@@ -69,3 +69,39 @@ func (cc *ClientConn) VfConnUnsent() int {
 	defer cc.mu.Unlock()
 	return int(cc.inflow.unsent)
 }
+
+// VfRecvWindows returns the receive windows the server enforces: connection avail and
+// [stream id, avail] for every live stream.
+func (sc *serverConn) VfRecvWindows() (conn int, streams [][2]int) {
+	type res struct {
+		conn    int
+		streams [][2]int
+	}
+	ch := make(chan res, 1)
+	select {
+	case sc.serveMsgCh <- func(int) {
+		r := res{conn: int(sc.inflow.avail), streams: [][2]int{}}
+		for id, st := range sc.streams {
+			r.streams = append(r.streams, [2]int{int(id), int(st.inflow.avail)})
+		}
+		sort.Slice(r.streams, func(i, j int) bool { return r.streams[i][0] < r.streams[j][0] })
+		ch <- r
+	}:
+		r := <-ch
+		return r.conn, r.streams
+	case <-sc.doneServing:
+		return -1, [][2]int{}
+	}
+}
+
+// VfRecvWindows returns the receive windows the Transport enforces.
+func (cc *ClientConn) VfRecvWindows() (conn int, streams [][2]int) {
+	cc.mu.Lock()
+	defer cc.mu.Unlock()
+	streams = [][2]int{}
+	for id, cs := range cc.streams {
+		streams = append(streams, [2]int{int(id), int(cs.inflow.avail)})
+	}
+	sort.Slice(streams, func(i, j int) bool { return streams[i][0] < streams[j][0] })
+	return int(cc.inflow.avail), streams
+}
